@@ -13,7 +13,7 @@ import re
 import shutil
 import sqlite3 as real_sqlite3
 import tempfile
-import textwrap
+import warnings
 
 import common
 from common import cps
@@ -722,6 +722,9 @@ class Real:
         common.repo_on_path()
         from Pyro5 import nameserver, core, errors
         self.nameserver, self.core, self.errors = nameserver, core, errors
+        self._warn = warnings.catch_warnings()
+        self._warn.__enter__()
+        warnings.simplefilter("ignore")      # generated regexes may trigger FutureWarning in re.compile
         self.faults = Faults()
         self._old = nameserver.sqlite3
         nameserver.sqlite3 = SqliteShim(self.faults)
@@ -734,6 +737,7 @@ class Real:
     def __exit__(self, *exc):
         self.nameserver.sqlite3 = self._old
         shutil.rmtree(self.dir, ignore_errors=True)
+        self._warn.__exit__(None, None, None)
 
     def new_file(self):
         self.nfile += 1
